@@ -147,7 +147,7 @@ class UidOracle(Oracle):
     prop = "C06"
 
     def after(self, world, op, outcome):
-        if op["k"] not in ("mk_group", "mk_object", "add_data", "copy", "mk_dup", "pg_add", "add_comment", "add_file", "move"):
+        if op["k"] not in ("mk_group", "mk_object", "add_data", "copy", "copy_extent", "mk_dup", "pg_add", "pg_new", "add_comment", "add_file", "move", "move_data"):
             return
         for h, handle in world.h.items():
             if handle.ws is None:
@@ -168,7 +168,8 @@ class UidOracle(Oracle):
                         raise Violation("C06", "uid_shared_live", f"{pkey} used by {seen[pkey]} and property group {pg.name!r}", {"a": seen[pkey].split(' ')[0], "b": "pg"})
                     seen[pkey] = f"pg {pg.name!r}"
                 stack.extend(snapshot.children_of(ent))
-        if op["k"] == "copy" and outcome == "ok":
+        if op["k"] in ("copy", "copy_extent") and outcome == "ok" and world.copies and world.copies[-1].get("judged_uid") is None:
+            world.copies[-1]["judged_uid"] = True
             self.copy_rules(world, world.copies[-1])
 
     def copy_rules(self, world, info):
@@ -188,9 +189,30 @@ class UidOracle(Oracle):
                 raise Violation("C06", "copy_uid_in_use", f"cross-workspace copy got identifiers already in use: {sorted(clash)[:2]}", {"ws": "other"})
             # originals' identifiers are kept whenever free in the target
             root_src, root_dst = info["src"], info["dst"]
-            if root_src not in info["in_use"] and root_dst != root_src:
+            dz = world.h[info["dh"]].model.zombies.get(root_src)
+            if root_src not in info["in_use"] and root_dst != root_src and not (dz and not dz.get("collected")):
                 raise Violation("C06", "copy_uid_not_kept", f"identifier {root_src} was free in the target workspace but the copy got {root_dst}",
                                 {"ws": "other", "level": "root"})
+            if info["children"]:
+                dzombies = world.h[info["dh"]].model.zombies
+                pg_ids = {p for u in src_model.subtree(info["src"]) for p in src_model.recs[u].get("pgs", {})}
+                for u in sorted(info["src_ids"]):
+                    if u in info["in_use"] or u in new_ids:
+                        continue
+                    if u in dzombies and not dzombies[u].get("collected"):
+                        continue   # a removed, not yet collected owner may still hold the identifier
+                    if u in pg_ids or u in src_model.recs:
+                        # every copied child / property group keeps its identifier when free
+                        copied = u in pg_ids or self._was_copied(src_model, u, info)
+                        if copied:
+                            raise Violation("C06", "copy_uid_not_kept", f"identifier {u} was free in the target workspace but is not used by the copy",
+                                            {"ws": "other", "level": "pg" if u in pg_ids else src_model.recs[u]["kind"]})
+
+    @staticmethod
+    def _was_copied(src_model, u, info) -> bool:
+        """Children known to be skipped by copies (comments are copied; survey helper data are not) -- conservative."""
+        rec = src_model.recs[u]
+        return rec["name"] not in ("A-B Cell ID", "Transmitter ID")
 
     def at_close(self, world, h):
         raw = rawgeoh5.read(world.h[h].path)
@@ -366,10 +388,11 @@ class CopyOracle(Oracle):
         self.pre_all = {h: {u: _freeze(r) for u, r in handle.model.recs.items()} for h, handle in world.h.items()}
 
     def after(self, world, op, outcome):
-        if op["k"] == "copy" and outcome == "ok":
+        if op["k"] in ("copy", "copy_extent") and outcome == "ok" and world.copies and world.copies[-1].get("judged_eq") is None:
+            world.copies[-1]["judged_eq"] = True
             self.judge_copy(world, world.copies[-1])
         # source aliasing: after any edit inside a copy, the source's LIVE records must equal the model
-        if outcome == "ok" and op["k"] in ("set_values", "rename", "set_flag", "set_meta", "pg_add", "pg_rm", "pg_del", "rm_ws", "rm_parent", "add_data", "move"):
+        if outcome == "ok" and op["k"] in ("set_values", "rename", "set_flag", "set_meta", "pg_add", "pg_rm", "pg_del", "rm_ws", "rm_parent", "add_data", "move", "move_data"):
             tgt = getattr(world, "last_target", None)
             if not tgt:
                 return
